@@ -25,6 +25,7 @@ type Request struct {
 	HC        bool           `json:"hc,omitempty"`     // HIGHER_CONSISTENCY
 	Conc      int            `json:"conc,omitempty"`   // issue this many concurrent copies
 	CancelAt  int            `json:"cancel,omitempty"` // cancel the client ctx at the k-th storage op (1-based; 0 = never)
+	Store     string         `json:"-"`                // run-time only: store id to address (default: the scenario's store)
 }
 
 // Scenario is a complete, replayable description of one simulated run.
@@ -230,25 +231,39 @@ func (g *G) Model(o ModelOpts) *rm.Model {
 		if depth >= 2 || x < 45 {
 			return leaf(self, res, depth)
 		}
+		// distinct operands only (the DSL lets one write `a or a`, but nobody does; the weighted graph
+		// rejects some of those shapes with an internal error, which is not what the properties are about)
+		distinct := func(kind rm.RewriteKind, n int) *rm.Rewrite {
+			rw := &rm.Rewrite{Kind: kind}
+			seen := map[string]bool{}
+			for i := 0; i < n*3 && len(rw.Children) < n; i++ {
+				c := build(self, res, depth+1)
+				k := rewriteKey(c)
+				if seen[k] {
+					continue
+				}
+				seen[k] = true
+				rw.Children = append(rw.Children, c)
+			}
+			if len(rw.Children) == 1 {
+				return rw.Children[0]
+			}
+			return rw
+		}
 		switch {
 		case x < 72:
-			n := 2 + g.Intn(2)
-			rw := &rm.Rewrite{Kind: rm.Union}
-			for i := 0; i < n; i++ {
-				rw.Children = append(rw.Children, build(self, res, depth+1))
-			}
-			return rw
+			return distinct(rm.Union, 2+g.Intn(2))
 		case x < 86:
-			rw := &rm.Rewrite{Kind: rm.Intersection}
-			for i := 0; i < 2; i++ {
-				rw.Children = append(rw.Children, build(self, res, depth+1))
-			}
-			return rw
+			return distinct(rm.Intersection, 2)
 		default:
 			if !o.Exclusion {
 				return leaf(self, res, depth)
 			}
-			return &rm.Rewrite{Kind: rm.Difference, Children: []*rm.Rewrite{build(self, res, depth+1), build(self, res, depth+1)}}
+			b, sub := build(self, res, depth+1), build(self, res, depth+1)
+			if rewriteKey(b) == rewriteKey(sub) {
+				return b
+			}
+			return &rm.Rewrite{Kind: rm.Difference, Children: []*rm.Rewrite{b, sub}}
 		}
 	}
 	// tupleset target types
@@ -298,6 +313,14 @@ func (g *G) Model(o ModelOpts) *rm.Model {
 		m.Types = append(m.Types, td)
 	}
 	return m
+}
+
+func rewriteKey(rw *rm.Rewrite) string {
+	s := fmt.Sprintf("%d:%s:%s(", rw.Kind, rw.Relation, rw.Tupleset)
+	for _, c := range rw.Children {
+		s += rewriteKey(c) + ","
+	}
+	return s + ")"
 }
 
 func condNameMaybe(g *G, m *rm.Model, p float64) string {
